@@ -39,7 +39,8 @@ def _run_one(args):
             repo = Repo(tmp)
             mod.run(repo, rep, "quick")
         except AnalysisError as e:
-            return (mid, "fired" if expect == "fire" else "noisy", f"analysis-error: {e}")
+            # fail-closed: the check would stop with exit 2 (no VIOLATION line); counted apart from reported violations
+            return (mid, "stopped" if expect == "fire" else "noisy", f"analysis-error: {e}")
         except SyntaxError as e:
             return (mid, "stale", f"variant does not parse: {e}")
         from .core import load_known
@@ -71,6 +72,7 @@ def collect(prop: str) -> tuple[dict, list]:
     summary = {
         "variants": len(cat),
         "breaking_fired": f"{sum(1 for _m, st, _d in results if st == 'fired')}/{n_fire}",
+        "breaking_stopped_exit2": sum(1 for _m, st, _d in results if st == "stopped"),
         "benign_silent": f"{sum(1 for _m, st, _d in results if st == 'silent')}/{len(cat) - n_fire}",
         "results": {m: f"{st}: {d}"[:160] for m, st, d in results},
     }
